@@ -171,7 +171,7 @@ class ShardVolumeSpec:
         ):
             raise ShardedIOError(f"{grid_coords!r} needs to be int, and >= 0")
         if not all(
-            grid_coord <= grid_size
+            grid_coord < grid_size
             for grid_coord, grid_size in zip(grid_coords, self.grid_sizes)
         ):
             raise ShardedIOError(f"{grid_coords!r} must be element-wise less "
